@@ -8,7 +8,7 @@ From PV Require Import Scalar.ScalarBase.
 Local Open Scope R_scope.
 
 Ltac cmp_cases :=
-  unfold b01 in *;
+  unfold b01, Rmax, Rmin in *;
   repeat match goal with
   | |- context [Rgt_dec ?a ?b] => destruct (Rgt_dec a b)
   | |- context [Rlt_dec ?a ?b] => destruct (Rlt_dec a b)
